@@ -202,6 +202,18 @@ class MvccSim:
                         L.append('delnode %d %s' % (self.w(), h))     # the loser of a double delete
                 else:
                     self.handles[h] = k
+        elif r < 0.635 and not self.mm and len(self.live) >= 2:
+            # a stale handle loses against deletes of the same key and of further keys (the loser must not
+            # disturb the winner's garbage list): handle on k1, delete k1, k2.., then DeleteNode(handle)
+            ks = rng.sample(sorted(self.live), min(len(self.live), rng.choice((2, 3))))
+            self.nh += 1
+            h = 'h%d' % self.nh
+            L.append('getnode %d %d %s' % (self.w(), ks[0], h))
+            w1 = self.w()
+            for k in ks:
+                L.append('del %d %d' % (w1, k))
+                self.live.pop(k, None)
+            L.append('delnode %d %s' % (self.w(), h))
         elif r < 0.65 and self.handles and not self.mm:
             h = rng.choice(sorted(self.handles))
             k = self.handles.pop(h)
@@ -811,6 +823,10 @@ def gen_mvccconc(rng, tier, sess):
         head = parts[0]
         for j in parts[1:]:
             jobs.append(j)
+        # nitro has one collection worker and one free worker per Writer (the harness creates writers+24):
+        # never keep more than a dozen jobs in flight
+        while len(jobs) > 12:
+            step_job()
         if head.startswith('at '):
             busy[t] = True
             return
